@@ -121,6 +121,14 @@ package stream
 //@   ensures uncancellable_adds_nothing: [C19] ctxDoneChan(ctx) == nil && ctxErrAt(ctx, old(ctxClock)) == nil ==> afCount == old(afCount) && (err != nil ==> rdFail == old(rdFail) + 1)
 //@   ensures fail_class: err != nil ==> rdFail == old(rdFail) + 1 || (rdCount == old(rdCount) + 1 && ctxErrAt(ctx, ctxClock) != nil) || (ctxClock == old(ctxClock) && ctxErrAt(ctx, ctxClock) != nil)
 
+// the watcher armed around a blocking call closes the connection (nothing weaker: a deadline would leave it half-used)
+//@ func (*Stream).readWithContext$1
+//@   props C19
+//@   callcount [C19] watcher_closes_the_connection: 1 net.Conn.Close
+//@ func (*Stream).writeWithContext$1
+//@   props C19
+//@   callcount [C19] watcher_closes_the_connection: 1 net.Conn.Close
+
 //@ func (*Stream).sendMessageWithEnd
 //@   props C01 C12 C04
 //@   nocall [C19] every_write_is_cancellable: io.Writer.Write
